@@ -213,6 +213,10 @@ func (am *Machine) encryptDataForParticipant(dkgIdentifier, to string, data []by
 
 // decryptDataFromParticipant decrypts the data that was sent to us
 func (am *Machine) decryptDataFromParticipant(data []byte) ([]byte, error) {
+	// ecies.Decrypt reads the ephemeral point from the head of the ciphertext without checking its length
+	if len(data) < am.baseSuite.PointLen() {
+		return nil, fmt.Errorf("failed to decrypt data: ciphertext is shorter than a curve point")
+	}
 	decryptedData, err := ecies.Decrypt(am.baseSuite, am.secKey, data, am.baseSuite.Hash)
 	if err != nil {
 		return nil, fmt.Errorf("failed to decrypt data: %w", err)
